@@ -1,7 +1,10 @@
 //! poulpy-sim: deterministic simulation with fault injection for poulpy (see /verif/DESIGN.md).
 mod alloc;
 mod c18;
+mod c20;
 mod driver;
+mod fhe;
+mod sched;
 mod prng;
 mod stream;
 mod util;
@@ -12,7 +15,7 @@ use driver::{CheckImpl, Tier};
 static GLOBAL: alloc::SimAlloc = alloc::SimAlloc;
 
 fn checks() -> Vec<Box<dyn CheckImpl>> {
-    vec![Box::new(c18::C18)]
+    vec![Box::new(c18::C18), Box::new(c20::C20)]
 }
 
 fn main() {
